@@ -3,11 +3,13 @@
    | op ; op ; ...                                                    history
    | k {A | <id>}*   or   f {A | <id>}*                               schedule (k: client-interaction steps, f: instr steps)
    | <url>*                                                           urls whose freshness is reported
-   ops:  O url lang tid tident | C url tid tident | S url | X url | DF d n | DD d | AU w url | AF w url
+   ops:  O url lang tid tident version | C url tid tident version | S url | X url | DF d n | DD d | AU w url | AF w url
          | I url k | R | G cfg url*          url: F<d>.<n> | U<n>          lang: p m c x
    stdout: "P" when the schedule is not executable in the model, else
      <publishDiagnostics log, oldest first> # <q|n> # <stale urls>
    a publication is  url=E  or  url=t<tid>.<ident>,<lang>,U<words>,F<words>,i<ident>,L<lcfg>,P<pcfg>,S<scfg>,G<ignored>
+   U, F, i are what shows of the two dictionaries of the provenance (the linter's and the one the document
+   was parsed with): a word is accepted iff it is in both (Server.observe).
    (pcfg is printed as '-' for plain-text documents: markdown options do not reach their parser; runs of
    consecutive empty publications are sorted by url: HashMap order of did_change_watched_files). *)
 let tokens s = List.filter (fun w -> w <> "") (String.split_on_char ' ' s)
@@ -25,8 +27,8 @@ let lang_of = function "p" -> LPlain | "m" -> LMarkdown | "c" -> LCode | _ -> LU
 let lang_s = function LPlain -> "p" | LMarkdown -> "m" | LCode -> "c" | LUnknown -> "x"
 let op_of s =
   match tokens s with
-  | ["O"; u; l; t; i] -> Open (url_of u, lang_of l, { t_id = nat_s t; t_ident = nat_s i })
-  | ["C"; u; t; i] -> Change (url_of u, { t_id = nat_s t; t_ident = nat_s i })
+  | ["O"; u; l; t; i; v] -> Open (url_of u, lang_of l, { t_id = nat_s t; t_ident = nat_s i }, nat_s v)
+  | ["C"; u; t; i; v] -> Change (url_of u, { t_id = nat_s t; t_ident = nat_s i }, nat_s v)
   | ["S"; u] -> Save (url_of u)
   | ["X"; u] -> Close (url_of u)
   | ["DF"; d; n] -> Delete (TFile (nat_s d, nat_s n))
@@ -47,7 +49,7 @@ let rec init_world w = function
   | [] -> w
   | _ -> failwith "init"
 let words l = String.concat "." (List.map string_of_int (List.sort_uniq compare (List.map int_of_nat l)))
-let pub_s = function
+let pub_s p = match observe p with
   | PEmpty -> "E"
   | PDiag a ->
       Printf.sprintf "t%d.%d,%s,U%s,F%s,i%d,L%d,P%s,S%d,G%s" (int_of_nat a.a_text.t_id) (int_of_nat a.a_text.t_ident)
@@ -63,9 +65,6 @@ let canon (l : (string * string) list) : (string * string) list =
     | [] -> List.rev_append (List.sort compare run) acc
   in
   List.rev (go [] [] l)
-let project = function
-  | PDiag a when a.a_lang = LPlain -> PDiag { a with a_pcfg = O }
-  | p -> p
 let () =
   iter_lines (fun line ->
     match List.map String.trim (String.split_on_char '|' line) with
@@ -84,7 +83,7 @@ let () =
           | Some y ->
               let w = y.y_world in
               let log = canon (List.rev_map (fun (u, p) -> (url_s u, pub_s p)) w.s_log) in
-              let stale = List.filter (fun u -> not (pub_eqb (project (lastword w u)) (project (expected w u)))) (List.map url_of (tokens urls)) in
+              let stale = List.filter (fun u -> pub_s (lastword w u) <> pub_s (expected w u)) (List.map url_of (tokens urls)) in
               print_endline (String.trim (String.concat " " (List.map (fun (u, p) -> u ^ "=" ^ p) log)
                              ^ " # " ^ (if quiescentb y then "q" else "n")
                              ^ " # " ^ String.concat " " (List.map url_s stale)))
